@@ -363,7 +363,7 @@ func init() {
 		} {
 			clis = append(clis, append(append([]string{}, a...), append(base, "scn")...))
 		}
-		yamls := c14yamls()
+		yamls := append(c14yamls(), c14matrix()...)
 		type job struct {
 			front string
 			args  []string
@@ -378,7 +378,7 @@ func init() {
 		}
 		rows := make([]c14trig, len(jobs))
 		var wg sync.WaitGroup
-		sem := make(chan struct{}, 8)
+		sem := make(chan struct{}, 12)
 		for i, j := range jobs {
 			wg.Add(1)
 			sem <- struct{}{}
@@ -436,6 +436,63 @@ func c14yamls() []string {
 		head("4", "300ms", "") + def + "stages:\n- rate: 3/10ms\n  duration: -50ms\n",
 		head("4", "300ms", "") + def + "stages:\n- rate: 3/10ms\n  distribution: bogus\n",
 		head("4", "300ms", "schedule:\n  stage-start: notatime\n") + def + st,
+	}
+	return out
+}
+
+// c14matrix: for every stage mode, every field that mode reads, each of the two places the field may be
+// written (the stage itself or the default section it is inherited from) and each unusable value of it
+// (or no value anywhere): one config file.  Everything else in the file is valid.
+func c14matrix() []string {
+	type fld struct {
+		k, good string
+		bad     []string
+	}
+	common := []fld{
+		{"distribution", "none", []string{"bogus"}},
+		{"jitter", "0", []string{"-5", "abc"}},
+		{"duration", "60ms", []string{"0s", "-50ms"}},
+	}
+	modes := []struct {
+		name string
+		f    []fld
+	}{
+		{"constant", append([]fld{{"rate", "3/10ms", []string{"5/", "1/0s", "x", "-1/s"}}}, common...)},
+		{"staged", append([]fld{{"stages", "0s:2,50ms:2", []string{"0s", "5ms:-1", "a:b"}},
+			{"iteration-frequency", "10ms", []string{"0s", "-10ms"}}}, common...)},
+		{"ramp", append([]fld{{"start-rate", "1/10ms", []string{"5/", "x"}}, {"end-rate", "4/10ms", []string{"5/", "1/0s"}}}, common...)},
+		{"gaussian", append([]fld{{"volume", "100", []string{"-5", "abc"}}, {"repeat", "1s", []string{"0s", "-1s"}},
+			{"iteration-frequency", "10ms", []string{"0s", "-10ms"}}, {"peak", "500ms", []string{"-1s"}},
+			{"weights", "\"\"", []string{"\"1,a\"", "\"0,0\"", "\"-1,1\""}}, {"standard-deviation", "100ms", []string{"0s", "-1s"}}}, common...)},
+		{"users", []fld{{"concurrency", "2", []string{"0", "-3"}}, {"duration", "60ms", []string{"0s", "-50ms"}}}},
+	}
+	head := "scenario: scn\nlimits:\n  max-duration: 300ms\n  concurrency: 4\n  max-iterations: 0\n  ignore-dropped: true\n"
+	var out []string
+	for _, m := range modes {
+		for fi, f := range m.f {
+			for _, level := range []string{"stage", "default"} {
+				for _, v := range append([]string{"<absent>"}, f.bad...) {
+					if v == "<absent>" && level == "default" {
+						continue // same file as absent at stage level
+					}
+					def := "default:\n  mode: constant\n"
+					st := "stages:\n- mode: " + m.name + "\n"
+					for gi, g := range m.f {
+						if gi != fi {
+							st += "  " + g.k + ": " + g.good + "\n"
+						}
+					}
+					if v != "<absent>" {
+						if level == "stage" {
+							st += "  " + f.k + ": " + v + "\n"
+						} else {
+							def += "  " + f.k + ": " + v + "\n"
+						}
+					}
+					out = append(out, head+def+st)
+				}
+			}
+		}
 	}
 	return out
 }
